@@ -443,6 +443,20 @@ def gen_config(rng, joint=None, small=True):
     return cfg
 
 
+def high_dimensional_configs(rng, scales):
+    """complete runs with many dimensions (3 sensors x window 20: NW = 60) at extreme data scales: the determinant of an
+    MRF, its square root and every partial product of pivots leave the double range (log det around -1700 at scale 1e6)."""
+    out = []
+    for sc in scales:
+        cfg = gen_config(rng, joint=False)
+        cfg.update({"N": 3, "W": 20, "K": 2, "regimes": 2, "lens": [19 + 300], "limit": 2, "scale": sc, "lam": 0.11,
+                    "beta": 5.0, "eps": 0, "m": 5, "high_dimensional": True})
+        for k in ("dtype", "completion"):
+            cfg.pop(k, None)
+        out.append(cfg)
+    return out
+
+
 def find_repopulating_config(rng, tries=40, joint=False):
     """a configuration whose run really repopulates a cluster (a repopulation phase that returns a new state): found
     by running candidates traced, so that a check that needs the repopulation path does not depend on the draw."""
